@@ -370,6 +370,9 @@ class PumpedPacketSource(ParserSource):
                 try:
                     packet = await self.receive_function()
                     self.parser.feed_data(packet)
+                except core.InvalidPacketError:
+                    # The parser has been reset: keep framing what comes next
+                    logger.warning('invalid packet, ignoring data')
                 except asyncio.CancelledError:
                     logger.debug('source pump task done')
                     if not self.terminated.done():
